@@ -4,7 +4,7 @@
    union theorem unconditional ([heap_union_total]). *)
 From Coq Require Import Permutation.
 From AV Require Import Base.Bytes Base.Outcome Hash.HashModel Tree.Heap Tree.Ops Tree.Script Tree.Load Tree.MergeSpec
-  Tree.MergePure Tree.LoadProofsBase Tree.LoadProofs Tree.LoadEffects Tree.LoadRefineBase Tree.LoadRefineHeap
+  Tree.MergePure Tree.LoadProofsBase Tree.LoadProofs Tree.LoadEffects Tree.LoadRefineBase Tree.LoadRefinePure Tree.LoadRefineHeap
   Tree.LoadRefineMain Tree.LoadRefineTop Tree.LoadResidue.
 From AV Require Xml.Lexer Xml.Parser.
 Open Scope string_scope.
@@ -514,6 +514,116 @@ Proof.
   split; [exact Hid|].
   intros [r p] Hy. rewrite Hst2, rev_involutive in Hy. destruct (refs_esub T root [] r p Hy) as (q & c & Ep & Es).
   cbn [rev app] in Ep. subst q. destruct (ItOK_at _ w1 p t root c HIt Es) as (i & n & Hat & _). cbn [snd]. rewrite Hat. discriminate.
+Qed.
+
+
+(* ---- the first file of a model, unconditionally *)
+Theorem load_parsed_first_total S m filename root st w x :
+  nth_opt (w_models w) (N.to_nat m) = Some x -> m_files x = [] ->
+  IdxNames S w m -> Functional S -> StOf st root -> NamesIn S root -> KeysNoDup root ->
+  let fid := N.of_nat (List.length (w_files w)) in
+  exists w', load_parsed T LATEST defref m filename root st w = Val (OK fid, w') /\ IdxNames S w' m /\
+             w_files w' = w_files w ++ [mkFile m filename (Parser.p_version st) (Parser.p_standalone st)] /\
+             exists ta, ModelTree w' m ta [fid] /\ erase ta = h_set_local (htree_of_etree root) [fid].
+Proof.
+  intros Hx Hfx HI HS Hst HN HK fid.
+  destruct (load_parsed_to_tail S m filename root st w x Hx HI HS Hst HN HK)
+    as (t & w1 & tb & H1 & A1 & HB & Eb & Eidb & Eitb & Hrb & Hndb & Hlocb & Heq & HI1 & HE1 & Hid & Hrefs).
+  cbv zeta in Heq, HI1, HE1. fold fid in Heq. set (w1' := mkWorld _ _ _ _) in *.
+  destruct A1 as (A11 & A12 & A13 & A14).
+  assert (Hx1 : nth_opt (w_models w1') (N.to_nat m) = Some x) by (cbn; rewrite A14; exact Hx).
+  assert (HB1 : AbsA w1' tb) by (apply (AbsA_frame' tb w1 w1'); [intros i _; reflexivity|exact HB]).
+  destruct (AbsA_node w1' tb HB1) as (pb & Hpb). rewrite Hlocb in Hpb.
+  assert (Hstage : exists wS, stage_of T LATEST defref m x (it_id t) fid w1' = Val (OK tt, wS) /\
+            w_nodes wS (a_id tb) = Some (mkNode (PModel m) (a_name tb) (a_ty tb) (map citem_of (a_content tb))
+                                                (match tb with ANode _ _ _ ats _ _ _ => ats end) [fid]
+                                                (match tb with ANode _ _ _ _ _ cm _ => cm end)) /\
+            (forall i, i <> a_id tb -> w_nodes wS i = w_nodes w1' i) /\
+            w_next wS = w_next w1' /\ w_files wS = w_files w1' /\
+            nth_opt (w_models wS) (N.to_nat m) = Some (set_root x (a_id tb))).
+  { eexists. split.
+    - unfold stage_of. rewrite Hfx. cbn [is_empty]. rewrite Eitb, <- Eidb.
+      unfold wbind at 1. rewrite (modify_node_wupd _ _ w1' _ Hpb).
+      unfold wbind at 1. erewrite modify_node_wupd by (unfold wupd; cbn [w_nodes]; apply upd_eq).
+      rewrite (modify_model_fwd m _ _ x) by exact Hx1. reflexivity.
+    - cbn [w_nodes w_next w_files w_models wupd]. split; [rewrite upd_eq; reflexivity|].
+      split; [intros i Hi; rewrite !upd_neq by exact Hi; reflexivity|].
+      split; [reflexivity|]. split; [reflexivity|]. eapply list_set_nth_eq; exact Hx1. }
+  destruct Hstage as (wS & Hstage & HnS & HfrS & HnextS & HfilesS & HmS).
+  assert (MT : ModelTree wS m (a_set_local tb [fid]) []).
+  { split; [exists (set_root x (a_id tb)); split; [exact HmS|]; split; [rewrite a_id_set_local; reflexivity|exact Hfx]|].
+    split.
+    { apply (AbsA_root_update w1' wS tb [fid] HB1 Hndb); [exists (PModel m); exact HnS|]. intros i Hi _. apply HfrS. exact Hi. }
+    split; [rewrite aids_set_local; exact Hndb|].
+    intros i Hi. rewrite aids_set_local in Hi. rewrite HnextS. cbn [w_next w1']. apply Hrb. exact Hi. }
+  assert (NK : NamesKept w1' wS).
+  { split; [exact HnextS|]. intros i n Hn. destruct (N.eq_dec i (a_id tb)) as [->|Hne].
+    - rewrite Hpb in Hn. injection Hn as <-. eexists. split; [exact HnS|reflexivity].
+    - exists n. split; [rewrite HfrS by exact Hne; exact Hn|reflexivity]. }
+  assert (HIS : IdxNames S wS m) by (apply (IdxNames_kept S w1' wS m x (set_root x (a_id tb)) NK Hx1 HmS eq_refl HI1)).
+  assert (HES : Forall (EntryOK wS t) (enames T [] [] root)).
+  { eapply Forall_impl; [|exact HE1]. intros y Hy. eapply EntryOK_kept; eauto. }
+  destruct (load_tail_total S m fid (w_next w) t st _ w1' wS _ [] (enames T [] [] root) Hstage MT HIS Hid HES HN Hrefs)
+    as (w' & Et & HI').
+  rewrite <- Heq in Et. exists w'. split; [exact Et|]. split; [exact HI'|].
+  destruct (load_parsed_first T LATEST defref m filename root st w x (OK fid) w' Hx Hfx Et) as [E|(_ & Hf & Hta)]; [discriminate E|].
+  split; [exact Hf|exact Hta].
+Qed.
+
+(* ---- a further file, unconditionally: the load returns OK *)
+Theorem load_parsed_merge_total S m filename root st w ta files (P : htree -> Prop) :
+  ModelTree w m ta files -> files <> [] ->
+  IdxNames S w m -> Functional S -> StOf st root -> NamesIn S root -> KeysNoDup root ->
+  let fid := N.of_nat (List.length (w_files w)) in
+  let fl := mkFile m filename (Parser.p_version st) (Parser.p_standalone st) in
+  let fver := fver_files (w_files w ++ [fl]) in
+  (forall fuel, (adepth ta < fuel)%nat ->
+     Clean T LATEST defref fver fuel (erase ta) (fold_right set_add [] files) (htree_of_etree root) fid /\
+     exists ha', pmerge T LATEST defref fver fuel (erase ta) (fold_right set_add [] files) (htree_of_etree root) fid = Val (OK ha') /\
+                 P ha') ->
+  exists w', load_parsed T LATEST defref m filename root st w = Val (OK fid, w') /\ IdxNames S w' m /\
+             w_files w' = w_files w ++ [fl] /\
+             exists ta' ha', ModelTree w' m ta' (files ++ [fid]) /\ erase ta' = h_set_local ha' (set_add fid (h_local ha')) /\ P ha'.
+Proof.
+  intros MT0 Hne HI HS Hst HN HK fid fl fver Hpure.
+  pose proof MT0 as ((x & Hx & Hroot & Hfiles) & HA & Hnd & Hb).
+  destruct (load_parsed_to_tail S m filename root st w x Hx HI HS Hst HN HK)
+    as (t & w1 & tb & H1 & A1 & HB & Eb & Eidb & Eitb & Hrb & Hndb & Hlocb & Heq & HI1 & HE1 & Hid & Hrefs).
+  cbv zeta in Heq, HI1, HE1. fold fid in Heq. fold fl in Heq, HI1, HE1. set (w1' := mkWorld _ _ _ _) in *.
+  pose proof A1 as (A11 & A12 & A13 & A14).
+  assert (Hx1 : nth_opt (w_models w1') (N.to_nat m) = Some x) by (cbn; rewrite A14; exact Hx).
+  assert (HB1 : AbsA w1' tb) by (apply (AbsA_frame' tb w1 w1'); [intros i _; reflexivity|exact HB]).
+  assert (HA1 : AbsA w1' ta).
+  { apply (AbsA_frame' ta w w1'); [|exact HA]. intros i Hi. cbn [w_nodes w1']. apply A12. apply Hb. exact Hi. }
+  assert (Hnd2 : NoDup (aids ta ++ aids tb)).
+  { apply LoadRefineSlots.nodup_app_intro_g; auto. intros i Hi Hi2. apply Hb in Hi. apply Hrb in Hi2. lia. }
+  assert (Hb1 : forall i, In i (aids ta) -> i < w_next w1') by (intros i Hi; cbn [w_next w1']; apply Hb in Hi; lia).
+  pose proof (adepth_fuel ta w1' Hnd Hb1) as Hfuel.
+  destruct (Hpure (fuel_of w1') Hfuel) as (HC & ha' & Hp & HP).
+  assert (Efv : fver_of w1' = fver) by (unfold fver_of, fver; cbn [w_files w1']; rewrite A13; reflexivity).
+  rewrite <- Eb, <- Efv, <- Hfiles in HC, Hp.
+  destruct (merge_file_data_refines T LATEST defref m x ta tb fid w1' ha' Hx1 Hroot HA1 HB1 Hnd2 HC Hp)
+    as (wS & ta' & EM & HA' & Ee' & Eid' & Hnd' & Hincl' & S').
+  assert (Hstage : stage_of T LATEST defref m x (it_id t) fid w1' = Val (OK tt, wS)).
+  { unfold stage_of. rewrite Hfiles. destruct files as [|f0 fr]; [congruence|]. cbn [is_empty].
+    rewrite Eitb, <- Eidb. unfold wbind at 1. unfold wcatch. rewrite EM. reflexivity. }
+  pose proof (merge_file_data_effects T LATEST defref m (a_id tb) fid w1' _ _ EM) as WE.
+  pose proof (NamesKept_eff _ _ _ WE) as NK.
+  destruct S' as (Sn & Sf & Sm & Snodes).
+  assert (MT : ModelTree wS m ta' files).
+  { split; [exists x; rewrite Sm; split; [exact Hx1|]; split; [congruence|exact Hfiles]|].
+    split; [exact HA'|]. split; [exact Hnd'|].
+    intros i Hi. rewrite Sn. cbn [w_next w1']. apply Hincl' in Hi. apply in_app_or in Hi as [Hi|Hi]; [apply Hb in Hi; lia|apply Hrb in Hi; lia]. }
+  assert (HmS : nth_opt (w_models wS) (N.to_nat m) = Some x) by (rewrite Sm; exact Hx1).
+  assert (HIS : IdxNames S wS m) by (apply (IdxNames_kept S w1' wS m x x NK Hx1 HmS eq_refl HI1)).
+  assert (HES : Forall (EntryOK wS t) (enames T [] [] root)).
+  { eapply Forall_impl; [|exact HE1]. intros y Hy. eapply EntryOK_kept; eauto. }
+  destruct (load_tail_total S m fid (w_next w) t st _ w1' wS _ files (enames T [] [] root) Hstage MT HIS Hid HES HN Hrefs)
+    as (w' & Et & HI').
+  rewrite <- Heq in Et. exists w'. split; [exact Et|]. split; [exact HI'|].
+  destruct (load_parsed_merge T LATEST defref m filename root st w ta files (OK fid) w' P MT0 Hne Hpure Et) as [E|(_ & Hf & Hta)];
+    [discriminate E|].
+  split; [exact Hf|exact Hta].
 Qed.
 
 End Total.
